@@ -14,6 +14,7 @@ pub fn guarded(f: impl FnOnce()) -> bool {
     let r = catch_unwind(AssertUnwindSafe(f));
     if r.is_err() {
         w().tainted = true;
+        w().in_collect = false;
         true
     } else {
         false
